@@ -15,6 +15,9 @@ CHECKS = {
     "C04": dict(level="other", technique="deductive contracts (pyvc): literal_value raises only ValueError + call-site guards, early returns of format_code, index-in-bounds obligations of the offset code, _loop_may_be_left, progress obligation of self-recursive rules; bounded totality runs of format_code on adversarial families",
                 text="Exception containment of constant evaluation, bounds of every offset subscript, the early-return paths and the progress condition of the self-recursive rules are proved; totality of the whole formatter (no exception, bounded time) is a bounded run over adversarial constants, every statement kind at end-of-file, invalid and indented inputs and option sets.",
                 note="trusted: z3, pyvc executor, assumed parser position contract; termination of self-recursive rules and interpreter limits outside the model", ref="5/C04"),
+    "C05": dict(level="other", technique="deductive frame conditions decided by a flow-sensitive inter-procedural ownership typing over the real AST (no write through a cache-reachable reference, no identity comparison across caches); bounded history runs of every rule and format_code",
+                text="Every write site of the package is proved to have a receiver created in the function (or passed in fresh by every caller), and identity-based tests never mix objects of different caches - for all inputs and histories; the meta-argument from these frame conditions to history independence is stated, and the end-to-end claim is bounded (double runs, cache eviction, fresh process, shuffled histories on the corpus).",
+                note="trusted: the ownership rules (stated, not mechanised), footprint models of copy/ast helpers/containers; cached functions assumed pure except cwd / import tracing", ref="5/C05"),
     "C10": dict(level="other", technique="deductive contracts (pyvc: ast->VC, z3/cvc5) on Range.overlaps, the conflict step/loop/final sort of _schedule_rewrites, _apply_rewrites, fix, chain; bounded marker-token drive of the real fix/chain for the textual splice",
                 text="Scheduler kernel proved for all rewrite lists of any length (all-or-nothing, never-overlap, dropped-only-if, precedence order, descending application order, valid-or-unchanged); the difflib-based splice and the end-to-end reading on output text are bounded (enumerated conflict configurations).",
                 note="trusted: z3/cvc5, the pyvc executor's model of Python (DESIGN 1.2), sorted()/set-comprehension models, ast.parse as validity; _do_rewrite only bounded", ref="5/C10"),
@@ -41,6 +44,7 @@ m = {
               "source_commits": [], "add_only": True},
     "engines": [
         {"name": "pyvc-smt", "path": "pyvc/", "serves_properties": sorted(CHECKS), "kind_free_text": "verification-condition generator over the real Python source (ast -> symbolic execution -> z3, cvc5 on unknown), sidecar contracts in contracts/"},
+        {"name": "pyvc-frame", "path": "pyvc/frame.py", "serves_properties": ["C05"], "kind_free_text": "ownership / frame checker: abstract interpretation of every function of the package with fresh / shared / parameter provenance"},
         {"name": "standins", "path": "standins/", "serves_properties": sorted(CHECKS), "kind_free_text": "bounded run-time contract checks of the real functions over enumerated spaces (labelled bounded, never counted as proved)"},
     ],
     "checks": [], "not_applicable": [],
